@@ -14,6 +14,19 @@ class C03(C04):
             'computed from the documentation rule by vlib/boundgen.py; non-trivial = at least one used and one unused field '
             'or a type mentioning a parameter; distinct by (feature vector, item)')
 
+    # the default bounds are `FieldTy: Trait` for the trait being derived - nothing a co-derived trait would need
+    _MK = 'pub struct Marker<const N: usize>;\nimpl<const N: usize> Clone for Marker<N> { fn clone(&self) -> Self { Marker } }\nimpl Copy for Marker<0> {}\nimpl<const N: usize> ::core::fmt::Debug for Marker<N> { fn fmt(&self, f: &mut ::core::fmt::Formatter) -> ::core::fmt::Result { f.write_str("M") } }\nimpl<const N: usize> PartialEq for Marker<N> { fn eq(&self, _: &Self) -> bool { true } }\nimpl Eq for Marker<0> {}\n'
+    rustc_programs = [
+        ('#[derive_ex(Clone, Copy)] struct X<const N: usize>(Marker<N>, u8);   [Marker<N>: Clone for every N, Copy for N = 0 only; X<1> is cloned]',
+         _MK + '#[::derive_ex::derive_ex(Clone, Copy)]\npub struct X<const N: usize>(pub Marker<N>, pub u8);\npub fn run() { let x = X::<1>(Marker, 1); let _ = x.clone(); let y = X::<0>(Marker, 1); let _z = y; let _ = y; }'),
+        ('#[derive(Ex)] #[derive_ex(Copy, Clone)] enum E<\'a, const N: usize> { A(&\'a u8, Marker<N>), B }',
+         _MK + "#[derive(::derive_ex::Ex)]\n#[derive_ex(Copy, Clone)]\npub enum E<'a, const N: usize> { A(&'a u8, Marker<N>), B }\npub fn run() { let e = E::<1>::A(&1, Marker); let _ = e.clone(); }"),
+        ('#[derive_ex(Clone)] #[derive_ex(Copy)] struct X<const N: usize> { m: [Marker<N>; 2] }',
+         _MK + '#[::derive_ex::derive_ex(Clone)]\n#[::derive_ex::derive_ex(Copy)]\npub struct X<const N: usize> { pub m: [Marker<N>; 2] }\npub fn run() { let x = X::<1> { m: [Marker, Marker] }; let _ = x.clone(); }'),
+        ('#[derive_ex(PartialEq, Eq, Debug)] struct X<const N: usize>(Marker<N>);   [Marker<N>: PartialEq + Debug for every N, Eq for N = 0 only; X<1> is compared]',
+         _MK + '#[::derive_ex::derive_ex(PartialEq, Eq, Debug)]\npub struct X<const N: usize>(pub Marker<N>);\npub fn run() { let _ = X::<1>(Marker) == X::<1>(Marker); let _ = format!("{:?}", X::<1>(Marker)); }'),
+    ]
+
     def n(self, tier):
         return 200 if tier == 'quick' else 12000
 
